@@ -30,8 +30,8 @@ Print Assumptions C01_all_schedules.
 
 (* client subscribe command, positioned, no recovery requested: THE CODE AS IT STANDS
    (patch flags arbitrary: they are not consulted on this path) *)
-Theorem C01_client_positioned : forall since ep jl fa fs f0 ls s,
-  run (mkCfg VClient true false since ep jl fa fs false f0) init ls = Some s -> C01Spec (g_log s) (log s).
+Theorem C01_client_positioned : forall since ep jl fa fs f0 f1 f2 ls s,
+  run (mkCfg VClient true false since ep jl fa fs false f0 f1 f2) init ls = Some s -> C01Spec (g_log s) (log s).
 Proof.
   intros. eapply c01_all_schedules; [|eassumption].
   split; [reflexivity|]. split; [intros; discriminate|]. split; [intros; discriminate|reflexivity].
@@ -39,8 +39,8 @@ Qed.
 Print Assumptions C01_client_positioned.
 
 (* server-side Client.Subscribe, positioned, no RecoverSince: the code as it stands *)
-Theorem C01_server_positioned : forall since ep jl fa fs f0 ls s,
-  run (mkCfg VServer true false since ep jl fa fs false f0) init ls = Some s -> C01Spec (g_log s) (log s).
+Theorem C01_server_positioned : forall since ep jl fa fs f0 f1 f2 ls s,
+  run (mkCfg VServer true false since ep jl fa fs false f0 f1 f2) init ls = Some s -> C01Spec (g_log s) (log s).
 Proof.
   intros. eapply c01_all_schedules; [|eassumption].
   split; [reflexivity|]. split; [intros; discriminate|]. split; [intros; discriminate|reflexivity].
@@ -48,8 +48,8 @@ Qed.
 Print Assumptions C01_server_positioned.
 
 (* client subscribe command with recovery: holds for the PATCHED reply construction ... *)
-Theorem C01_client_recover_patched : forall since ep jl fs f0 ls s,
-  run (mkCfg VClient true true since ep jl true fs false f0) init ls = Some s -> C01Spec (g_log s) (log s).
+Theorem C01_client_recover_patched : forall since ep jl fs f0 f1 f2 ls s,
+  run (mkCfg VClient true true since ep jl true fs false f0 f1 f2) init ls = Some s -> C01Spec (g_log s) (log s).
 Proof.
   intros. eapply c01_all_schedules; [|eassumption].
   split; [reflexivity|]. split; [intros; reflexivity|]. split; [intros; discriminate|reflexivity].
@@ -69,8 +69,8 @@ Proof. exact c01_client_recover_refuted_delay. Qed.
 Print Assumptions C01_client_recover_refuted_delay.
 
 (* server-side Client.Subscribe with RecoverSince: holds with both patches ... *)
-Theorem C01_server_recover_patched : forall since ep jl f0 ls s,
-  run (mkCfg VServer true true since ep jl true true false f0) init ls = Some s -> C01Spec (g_log s) (log s).
+Theorem C01_server_recover_patched : forall since ep jl f0 f1 f2 ls s,
+  run (mkCfg VServer true true since ep jl true true false f0 f1 f2) init ls = Some s -> C01Spec (g_log s) (log s).
 Proof.
   intros. eapply c01_all_schedules; [|eassumption].
   split; [reflexivity|]. split; [intros; reflexivity|]. split; [intros; reflexivity|reflexivity].
@@ -115,7 +115,7 @@ Print Assumptions C01_detect_spawns.
    fairness assumption on the Go scheduler, not proved. *)
 Theorem C01_pending_ends_client : forall c s n pos pep,
   c_var c = VClient -> pending s = S n -> up s = UIdle -> dl s = DIdle -> closed s = false ->
-  ch s = Sub pos pep ->
+  ch s = Sub pos pep -> cw s = [] ->
   exists s', run c s [LUnsub UInsuff; LUnsubHub; LUnsubOut] = Some s' /\
              log s' = log s ++ [FUnsubPush code_unsub_insufficient] /\
              ch s' = NoCh /\ hub s' = false /\ pending s' = n.
@@ -140,14 +140,14 @@ Print Assumptions C01_oracle_complete.
 (* a schedule with recovery from history + buffer + live pushes + a filtered publication,
    patched model: the hypotheses of the theorems are reachable and deliver publications *)
 Example C01_reachable_recover :
-  option_map log (run (mkCfg VClient true true 1 1 false true false false false) init
+  option_map log (run (mkCfg VClient true true 1 1 false true false false false false false) init
     [P; P; P; D; D; D; LReserve; LStartBuf; LHubAdd; P; D; LSync; LHistRead; LPublish true 100%nat; D; LSync;
      LMerge; LWriteReply; LCommit; LStopBuf; P; D; LSync; LCheck; LEnqueue])
   = Some [FSubReply true [mkP 2 1 false; mkP 3 1 false; mkP 4 1 false] 1 1; FPub (mkP 6 1 false)].
 Proof. vm_compute. reflexivity. Qed.
 (* a live gap ends a client-side subscription with the insufficient-state unsubscribe *)
 Example C01_reachable_gap :
-  option_map log (run (mkCfg VClient true false 0 0 false false false false false) init
+  option_map log (run (mkCfg VClient true false 0 0 false false false false false false false) init
     [LReserve; LStartBuf; LHubAdd; LHistRead; LMerge; LWriteReply; LCommit; LStopBuf;
      P; P; LDrop 0%nat; D; LSync; LCheck; LUnsub UInsuff; LUnsubHub; LUnsubOut; P; D])
   = Some [FSubReply false [] 0 1; FUnsubPush 2500].
